@@ -1,1 +1,1 @@
-import Hive
+import Properties.C02
